@@ -113,7 +113,7 @@ Print Assumptions c18_condvar_notify_wakes_blocked_waiter.
 (* pinned TimedWaitHelper (single `if`): two holders.  timed_mutex/LL|G *)
 Theorem c18_timed_mutex_holders_compatible_refuted :
   exists tr s, Mx.run {| v_tm_while := false; v_rc_notify := true; v_rc_while := true; v_rt_while := true;
-                         v_sh_while := true; v_shs_while := true; v_st_while := true; v_st_helper := true;
+                         v_sh_while := true; v_shs_while := true; v_st_while := true; v_st_helper := true; v_shs_eq := true;
                          v_sl_guard := true |} Mx.init tr = Some s /\ length (Mx.holders s) = 2.
 Proof.
   exists [Mx.EOp 1 Mx.OLock; Mx.EOp 2 (Mx.OTimed (Dur 3000)); Mx.EOp 1 (Mx.OUnlock 0); Mx.EOp 1 Mx.OLock; Mx.ERun 2 10].
@@ -174,7 +174,7 @@ Print Assumptions c18_recursive_blocked_eventually_woken.
    nothing can run.  recursive_mutex/L|L *)
 Theorem c18_recursive_blocked_eventually_woken_refuted :
   exists tr s, Rc.run {| v_tm_while := true; v_rc_notify := false; v_rc_while := true; v_rt_while := true;
-                         v_sh_while := true; v_shs_while := true; v_st_while := true; v_st_helper := true;
+                         v_sh_while := true; v_shs_while := true; v_st_while := true; v_st_helper := true; v_shs_eq := true;
                          v_sl_guard := true |} Rc.init tr = Some s /\
                (forall g, Rc.resumable s g = false) /\ Rc.pcs s 2 = Rc.InLock /\ Rc.holders s = [].
 Proof.
@@ -188,7 +188,7 @@ Print Assumptions c18_recursive_blocked_eventually_woken_refuted.
 (* pinned RecursiveMutex::lock (single `if`), once unlock notifies: two owners.  recursive_mutex/LL|L *)
 Theorem c18_recursive_lock_holders_compatible_refuted :
   exists tr s, Rc.run {| v_tm_while := true; v_rc_notify := true; v_rc_while := false; v_rt_while := true;
-                         v_sh_while := true; v_shs_while := true; v_st_while := true; v_st_helper := true;
+                         v_sh_while := true; v_shs_while := true; v_st_while := true; v_st_helper := true; v_shs_eq := true;
                          v_sl_guard := true |} Rc.init tr = Some s /\
                In 1 (Rc.holders s) /\ In 2 (Rc.holders s).
 Proof.
@@ -200,7 +200,7 @@ Print Assumptions c18_recursive_lock_holders_compatible_refuted.
 (* pinned RecursiveTimedMutex::TimedWaitHelper (single `if`): two owners.  recursive_timed_mutex/LL|G *)
 Theorem c18_recursive_timed_holders_compatible_refuted :
   exists tr s, Rc.run {| v_tm_while := true; v_rc_notify := true; v_rc_while := true; v_rt_while := false;
-                         v_sh_while := true; v_shs_while := true; v_st_while := true; v_st_helper := true;
+                         v_sh_while := true; v_shs_while := true; v_st_while := true; v_st_helper := true; v_shs_eq := true;
                          v_sl_guard := true |} Rc.init tr = Some s /\
                In 1 (Rc.holders s) /\ In 2 (Rc.holders s).
 Proof.
@@ -274,7 +274,7 @@ Print Assumptions c18_shared_blocked_eventually_woken.
 (* pinned SharedMutex::lock (single `if`): two writers.  shared_mutex/LL|L *)
 Theorem c18_shared_lock_holders_compatible_refuted :
   exists tr s, Sh.run {| v_tm_while := true; v_rc_notify := true; v_rc_while := true; v_rt_while := true;
-                         v_sh_while := false; v_shs_while := true; v_st_while := true; v_st_helper := true;
+                         v_sh_while := false; v_shs_while := true; v_st_while := true; v_st_helper := true; v_shs_eq := true;
                          v_sl_guard := true |} Sh.init tr = Some s /\ length (Sh.xh s) = 2.
 Proof.
   exists [Sh.EOp 1 Sh.OLockX; Sh.EOp 2 Sh.OLockX; Sh.EOp 1 (Sh.OUnlockX true 0); Sh.EOp 1 Sh.OLockX; Sh.ERun 2 10].
@@ -285,7 +285,7 @@ Print Assumptions c18_shared_lock_holders_compatible_refuted.
 (* pinned SharedMutex::lock_shared (single `if`): a writer and a reader.  shared_mutex/LL|l *)
 Theorem c18_shared_lock_shared_holders_compatible_refuted :
   exists tr s, Sh.run {| v_tm_while := true; v_rc_notify := true; v_rc_while := true; v_rt_while := true;
-                         v_sh_while := true; v_shs_while := false; v_st_while := true; v_st_helper := true;
+                         v_sh_while := true; v_shs_while := false; v_st_while := true; v_st_helper := true; v_shs_eq := true;
                          v_sl_guard := true |} Sh.init tr = Some s /\ Sh.xh s = [1] /\ Sh.sh s = [2].
 Proof.
   exists [Sh.EOp 1 Sh.OLockX; Sh.EOp 2 Sh.OLockS; Sh.EOp 1 (Sh.OUnlockX true 0); Sh.EOp 1 Sh.OLockX; Sh.ERun 2 10].
@@ -293,10 +293,28 @@ Proof.
 Qed.
 Print Assumptions c18_shared_lock_shared_holders_compatible_refuted.
 
+(* blocked readers parked on _shared_queue instead of _exclusive_queue (a seeded text, never in the tree): the
+   coin of unlock() wakes the timed writer, a reader barges in with try_lock_shared, the writer waits again and
+   times out, the last unlock_shared notifies the empty exclusive queue, and the reader sleeps on a free lock
+   with nothing left to run.  shared_timed_mutex/L|l|F|t(S) *)
+Theorem c18_shared_lock_shared_queue_blocked_eventually_woken_refuted :
+  exists tr s, Sh.run {| v_tm_while := true; v_rc_notify := true; v_rc_while := true; v_rt_while := true;
+                         v_sh_while := true; v_shs_while := true; v_st_while := true; v_st_helper := true;
+                         v_shs_eq := false; v_sl_guard := true |} Sh.init tr = Some s /\
+               (forall g, Sh.resumable s g = false) /\ Sh.pcs s 2 = Sh.InLockS /\
+               Sh.occ s = false /\ Sh.xh s = [] /\ Sh.sh s = [].
+Proof.
+  exists [Sh.EOp 1 Sh.OLockX; Sh.EOp 2 Sh.OLockS; Sh.EOp 3 (Sh.OTimedX (Dur 5)); Sh.EOp 1 (Sh.OUnlockX false 0);
+          Sh.EOp 4 Sh.OTryS; Sh.ERun 3 1; Sh.ERun 3 16; Sh.EOp 4 (Sh.OUnlockS 0)].
+  eexists. split; [vm_compute; reflexivity|]. split; [|repeat split; reflexivity].
+  intros g. do 5 (destruct g as [|g]; [vm_compute; reflexivity|]). vm_compute. reflexivity.
+Qed.
+Print Assumptions c18_shared_lock_shared_queue_blocked_eventually_woken_refuted.
+
 (* pinned SharedTimedMutex::TimedWaitHelper (single `if`): two writers.  shared_timed_mutex/LL|G *)
 Theorem c18_shared_timed_holders_compatible_refuted :
   exists tr s, Sh.run {| v_tm_while := true; v_rc_notify := true; v_rc_while := true; v_rt_while := true;
-                         v_sh_while := true; v_shs_while := true; v_st_while := false; v_st_helper := true;
+                         v_sh_while := true; v_shs_while := true; v_st_while := false; v_st_helper := true; v_shs_eq := true;
                          v_sl_guard := true |} Sh.init tr = Some s /\ length (Sh.xh s) = 2.
 Proof.
   exists [Sh.EOp 1 Sh.OLockX; Sh.EOp 2 (Sh.OTimedX (Dur 3000)); Sh.EOp 1 (Sh.OUnlockX true 0); Sh.EOp 1 Sh.OLockX;
@@ -310,7 +328,7 @@ Print Assumptions c18_shared_timed_holders_compatible_refuted.
    shared_timed_mutex/G|t *)
 Theorem c18_shared_timed_success_holds_in_mode_refuted :
   exists tr s, Sh.run {| v_tm_while := true; v_rc_notify := true; v_rc_while := true; v_rt_while := true;
-                         v_sh_while := true; v_shs_while := true; v_st_while := true; v_st_helper := false;
+                         v_sh_while := true; v_shs_while := true; v_st_while := true; v_st_helper := false; v_shs_eq := true;
                          v_sl_guard := true |} Sh.init tr = Some s /\
                Sh.xh s = [1] /\ Sh.exm s = false /\ Sh.sh s = [2].
 Proof.
@@ -350,7 +368,7 @@ Print Assumptions c18_sleep_map_lookup_safe.
    timed_mutex/L|Z  (already repaired in the tree by the sleep-map fix) *)
 Theorem c18_sleep_map_lookup_safe_refuted :
   exists tr s, Mx.run {| v_tm_while := true; v_rc_notify := true; v_rc_while := true; v_rt_while := true;
-                         v_sh_while := true; v_shs_while := true; v_st_while := true; v_st_helper := true;
+                         v_sh_while := true; v_shs_while := true; v_st_while := true; v_st_helper := true; v_shs_eq := true;
                          v_sl_guard := false |} Mx.init tr = Some s /\ ub (Mx.sm s) = true.
 Proof.
   exists [Mx.EOp 1 Mx.OLock; Mx.EOp 2 (Mx.OTimed (Dur 0))].
